@@ -79,12 +79,18 @@ def _case(draw, ctx):
     op = draw(st.sampled_from(["fanin", "fanin", "fanout", "fanout", "regs", "unroll"]))
     again = draw(st.integers(0, 3)) == 0  # apply the transform to its own output with a smaller k
     tables = draw(st.lists(st.integers(0, (1 << 64) - 1), min_size=16, max_size=16))
+    cts = ("0", "1", "x") if draw(st.integers(0, 3)) == 0 else ("0", "1")
+    if op in ("fanin", "fanout") and draw(st.integers(0, 5)) == 0:
+        # circuits with feedback: every original node must keep its set of stable values
+        spec = draw(S.circuit_spec(min_inputs=1, max_inputs=2, min_gates=2, max_gates=5, max_fanin=5 if op == "fanin" else 3,
+                                   cyclic=True, consts=False))
+        return {"op": op + "_cyc", "k": draw(st.integers(2, 3)), "spec": spec, "tables": tables}
     if op == "fanin":
-        spec = draw(S.circuit_spec(min_inputs=2, max_inputs=7, min_gates=1, max_gates=8, max_fanin=7,
+        spec = draw(S.circuit_spec(min_inputs=2, max_inputs=7, min_gates=1, max_gates=8, max_fanin=7, const_types=cts,
                                    max_insts=draw(st.sampled_from([0, 0, 2])), io_outputs=True))
         return {"op": op, "k": draw(st.integers(2, 5)), "spec": spec, "tables": tables, "again": again}
     if op == "fanout":
-        spec = draw(S.circuit_spec(min_inputs=1, max_inputs=3, min_gates=3, max_gates=12, max_fanin=3,
+        spec = draw(S.circuit_spec(min_inputs=1, max_inputs=3, min_gates=3, max_gates=12, max_fanin=3, const_types=cts,
                                    max_insts=draw(st.sampled_from([0, 0, 2])), io_outputs=True))
         return {"op": op, "k": draw(st.integers(2, 5)), "spec": spec, "tables": tables, "again": again}
     if op == "regs":
@@ -114,8 +120,14 @@ def strategy(ctx):
     return _case(ctx)
 
 
+def _xnodes(c):
+    return sorted(n for n in c.graph.nodes if c.graph.nodes[n].get("type") == "x")
+
+
 def _tables(c, case):
-    free = refsim.free_nodes(c)
+    # an 'x' constant has no Boolean value of its own: it is treated as one more free signal,
+    # the same one in the original and in the transformed circuit
+    free = sorted(refsim.free_nodes(c) + _xnodes(c))
     if len(free) <= 10 or case["tables"] is None:
         asg, W = refsim.std_assignment(free)
     else:
@@ -131,11 +143,12 @@ def _same_registry(c, r, what):
 
 
 def _compare_nodes(c, r, asg, W, what, only=None):
-    v0 = refsim.simulate(c, asg, W)
-    free_r = refsim.free_nodes(r)
+    xt = {n: asg[n] for n in _xnodes(c)}
+    v0 = refsim.simulate(c, asg, W, x_tables=xt)
+    free_r = refsim.free_nodes(r) + _xnodes(r)
     if set(free_r) != set(asg):
         raise Violation(f"{what}|free_nodes", f"{what}: free signals changed: {sorted(set(free_r) ^ set(asg))}")
-    v1 = refsim.simulate(r, asg, W)
+    v1 = refsim.simulate(r, asg, W, x_tables=xt)
     for n in (only if only is not None else v0):
         if n not in v1:
             raise Violation(f"{what}|node_missing", f"{what}: original node {n!r} missing from result")
@@ -157,6 +170,38 @@ def check(case, ctx):
     op = case["op"]
     snap = refsim.snapshot(c)
     labels = [op]
+    if _xnodes(c):
+        labels.append("has_x_constant")
+    if op in ("fanin_cyc", "fanout_cyc"):
+        k = case["k"]
+        base = op[:-4]
+        fn = cg.tx.limit_fanin if base == "fanin" else cg.tx.limit_fanout
+        r = need(lib(fn, c, k), op, f"limit_{base}(cyclic c,{k})")
+        if refsim.snapshot(c) != snap:
+            raise Violation(f"{base}|mutates_argument", "argument modified")
+        if r.inputs() != c.inputs() or r.outputs() != c.outputs():
+            raise Violation(f"{base}|io", f"limit_{base}: io changed")
+        deg = (lambda g, n: len(g.pred[n])) if base == "fanin" else (lambda g, n: len(g.succ[n]))
+        if max(deg(r.graph, n) for n in r.graph.nodes) > k:
+            raise Violation(f"{base}|bound", f"limit_{base}(c,{k}): bound exceeded on a cyclic circuit")
+        on = sorted(c.graph.nodes)
+        extra = sorted(set(r.graph.nodes) - set(on))
+        if set(on) - set(r.graph.nodes) or len(on) + len(extra) > 16:
+            if set(on) - set(r.graph.nodes):
+                raise Violation(f"{base}|node_missing", "original node missing")
+            return {"nontrivial": False, "labels": [op, "skipped_too_big"]}
+        _, ok0 = refsim.consistent_mask(c, on)
+        _, ok1 = refsim.consistent_mask(r, on + extra)
+        chunk = 1 << len(on)
+        cm = (1 << chunk) - 1
+        proj = 0
+        while ok1:
+            proj |= ok1 & cm
+            ok1 >>= chunk
+        if proj != ok0:
+            raise Violation(f"{base}|stable_states_changed", f"limit_{base}(c,{k}) on a cyclic circuit changed the set of consistent valuations of the original nodes")
+        before = max(deg(c.graph, n) for n in c.graph.nodes)
+        return {"nontrivial": before > k, "labels": [op, "cyclic" if refsim.has_cycle(c) else "acyclic"]}
     if op in ("fanin", "fanout"):
         k = case["k"]
         fn = cg.tx.limit_fanin if op == "fanin" else cg.tx.limit_fanout
